@@ -69,6 +69,8 @@ def gen_progs(rng, n, pid):
         opts = {}
         if pid in ("C03", "C04", "C02"):
             opts["full_sig"] = rng.random() < 0.8
+        if pid == "C12":
+            opts["lit_p"] = 0.35
         if pid in ("C14", "C01"):
             opts["names_p"] = 0.9 if pid == "C14" else 0.5
         p = prog.make_prog(rng, opts=opts)
@@ -93,7 +95,7 @@ def prog_oracle(pid, p, r, o):
     solve_errs = [d for d in ds if d[0] == "DNoProvider" or d[0].startswith("DUnused")]
     inj_errs = [d for d in ds if d[0] in ("DNeedsCleanup", "DNeedsErr", "DValueAccess")]
     set_ok = accepted or not set_errs
-    if pid in ("C05", "C06", "C07", "C08", "C09", "C10", "C11"):
+    if pid in ("C05", "C06", "C07", "C08", "C09", "C10", "C11", "C12"):
         msgs += props_oracle_core(pid, (tree, given, out), accepted, set_ok, set_errs, solve_errs, None,
                                   sig=(p["cleanup"], p["err"]), inject_errs=inj_errs)
     if pid in ("C01", "C02", "C14") and accepted:
@@ -112,7 +114,7 @@ def prog_oracle(pid, p, r, o):
             msgs += traceoracle.check_c03(p, r, o["runs"])
         elif pid == "C04":
             msgs += traceoracle.check_c04(p, r, o["runs"])
-        elif pid == "C11":
+        elif pid in ("C11", "C12"):
             # every consumer of a bound interface sees the very value supplied for the concrete type
             msgs += [m for m in traceoracle.check_c02(p, r, o["runs"])]
     if accepted and o.get("run_crash") and pid in ("C02", "C03", "C04"):
